@@ -65,6 +65,13 @@ def Excl_shapeSFloor (shape : Shape) (sls : List (Option Sl)) : Bool :=
 def Excl_reshapeLongWindow (t : Dense) : Bool :=
   !t.view && (t.win.len : Int) != totalSize t.ap.shape
 
+/-- F31 (C07/C11): scalar-on-the-left comparison with same-type output on an iterator path: the
+    generated code walks the (contiguous) result buffer with the *operand's* iterator offsets
+    (`<Cmp>SameIter(typ, dataA, dataReuse, ait, bit)`): panic or wrong cells. -/
+def Excl_cmpSameIterSV (t : Dense) (reuse : Option Dense) (leftTensor same unsafe_ : Bool) : Bool :=
+  !leftTensor && same && !unsafe_ && !isScalar t.ap.shape &&
+    (t.requiresIterator || (match reuse with | some r => r.requiresIterator || r.ap.o.col != t.ap.o.col | none => false))
+
 /-- does `T axes` on `t` run the physical transpose first? (pending, not vector, not "reversed") -/
 def T_materialises (t : Dense) (axes : List Int) : Bool :=
   match t.old, t.ap.T axes with
